@@ -154,6 +154,11 @@ func init() {
 			"scale-counters":  {"main", `{% counter c = 1000 %}{% for i:=250; i<270; i++ %}{% counter c+500 %}{%= c %},{%= i %};{% if c > 1200 %}x{% endif %}{% endfor %}{% ctx y = c %}{%= y %}`},
 			"scale-nest":      {"main", `{% for _, a := range lst %}{% for _, b := range lst %}{% for _, d := range lst %}{% for k, e := range user.Finance.History %}{%= a %}{%= b %}{%= d %}{%= k %}{%= e.Cost %}{% endfor %}{% endfor %}{% endfor %}{% endfor %}`},
 			"scale-raw":       {"main", strings.Repeat("static text with some length, ", 700) + "{%= user.Id %}"},
+			// lengths beyond the small-integer range in len() / cap() conditions, on a field, a static value and a ctx-made bytes variable
+			"scale-len": {"main", `{% if len(big) >= 300 %}L{% endif %}{% if cap(big) > 256 %}C{% endif %}{% ctx bb = big %}{% if len(bb) >= 1000 %}B{% else %}b{% endif %}{% if len(lst) > 3 %}4{% endif %}`},
+			// includes (also nested) executed while bound tags are open, and bound tags opened inside the included template
+			"scale-include-in-region": {"subr", `<b>{%= user.Id %}</b>{% jsonquote %}"q"{% endjsonquote %}`, "main",
+				`{% htmlescape %}{% include subr %}{% jsonquote %}{% include subr %}{% urlencode %}{% . subr %}{% endurlencode %}{% endjsonquote %}{% for i:=0; i<3; i++ %}{% include subr %}{% endfor %}{% endhtmlescape %}`},
 		}
 		for name, defs := range scale {
 			dyntpl.VerifResetRegistry()
@@ -181,9 +186,11 @@ func init() {
 		cfgs := []GenCfg{
 			{MaxDepth: 3, MaxNodes: 14, Loops: true, Switch: true, Ternary: true, Letters: true, PreSuf: true, Helpers: true, Region: true, Mods: true, BuiltinOnly: true},
 			{MaxDepth: 3, MaxNodes: 14, Loops: true, Ctl: true, BreakN: true, LazyBreak: true, CtxSet: true, Counter: true, Include: true, Exit: true, BuiltinOnly: true},
+			// includes inside regions, regions inside includes
+			{MaxDepth: 3, MaxNodes: 14, Loops: true, Include: true, Region: true, Letters: true, PreSuf: true, Helpers: true, BuiltinOnly: true},
 		}
-		for i := 0; i < r.N(400, 8000); i++ {
-			c, _ := genCase(r, cfgs[i%2])
+		for i := 0; i < r.N(600, 12000); i++ {
+			c, _ := genCase(r, cfgs[i%3])
 			dyntpl.VerifResetRegistry()
 			okc := true
 			for _, t := range c.Tpls {
